@@ -188,8 +188,8 @@ fn short_budget_s(entry: &str, quick: bool) -> f64 {
     let kind = entry.split(':').next().unwrap_or("");
     let slow_kind = matches!(kind, "vcf" | "vcfgz" | "bcf" | "bcfraw");
     match (quick, slow_kind) {
-        (true, true) => 8.0,
-        (true, false) => 3.0,
+        (true, true) => 10.0,
+        (true, false) => 8.0,
         (false, true) => 70.0,
         (false, false) => 30.0,
     }
@@ -316,7 +316,8 @@ fn run_case(ctx: &Ctx, w: &World, idx: u64, c: &Case) -> CaseOut {
             let nv = apis.len();
             let cache: std::cell::RefCell<(usize, Vec<u8>)> = std::cell::RefCell::new((usize::MAX, Vec::new()));
             let mut names = vec![];
-            for s in SUBST_NAMES {
+            let value_names: &[&str] = if *layer == Layer::CramStruct { &cramfmt::STRUCT_VALUES } else { &SUBST_NAMES };
+            for s in value_names {
                 for a in &apis {
                     names.push(format!("{s}/{}", api_name(*a)));
                 }
@@ -336,7 +337,7 @@ fn run_case(ctx: &Ctx, w: &World, idx: u64, c: &Case) -> CaseOut {
                 (
                     which * nv + vi,
                     read_api_probe(it.item.kind, apis[vi], bytes, &it.item.name),
-                    format!("input = item {} at layer {}, byte {pos} {}", it.item.name, layer.name(), SUBST_NAMES[which]),
+                    format!("input = item {} at layer {}, {}", it.item.name, layer.name(), w.det_describe(*item, *layer, pos, which)),
                 )
             })
         }
@@ -611,12 +612,7 @@ fn main() {
             rep.floor("valid items read to END", rep.counters.get("outcome_by_part[valid|end]").copied().unwrap_or(0), w.items.len() as u64);
         }
         // what the hang ledger did: per entry point hangs / probes run under the short budget / probes skipped
-        let mut entries: Vec<String> = vec![];
-        for k in corpus::Kind::ALL {
-            for a in ["primary", "eager", "indexer", "debug-fmt"] {
-                entries.push(format!("{}:{a}", k.name()));
-            }
-        }
+        let mut entries: Vec<String> = corpus::Kind::ALL.iter().map(|k| k.name().to_string()).collect();
         entries.extend(codecs::CODECS.iter().map(|c| format!("codec:{c}")));
         entries.extend(queries::TARGETS.iter().map(|t| format!("query:{t}")));
         for e in &entries {
